@@ -21,13 +21,13 @@ package exec
 //@   loop 1 invariant len(shelvedRequests) == len(shelvedMachines)
 //@   loop 1 invariant len(*schedQ) + len(shelvedRequests) == old(len(*schedQ)) && len(*machQ) + len(shelvedMachines) == old(len(*machQ))
 //@   loop 1 invariant qnn: forall(i, 0, len(*schedQ), (*schedQ)[i] != nil) && forall(i, 0, len(*machQ), (*machQ)[i] != nil)
-//@   loop 1 invariant snn: forall(i, 0, len(shelvedRequests), shelvedRequests[i] != nil && shelvedMachines[i] != nil)
+//@   loop 1 invariant snn: forall(i, 0, len(shelvedRequests), shelvedRequests[i] != nil) && forall(i, 0, len(shelvedMachines), shelvedMachines[i] != nil)
 //@   loop 1 invariant fr: implies(shelvedRequests != nil, fresh(shelvedRequests)) && implies(shelvedMachines != nil, fresh(shelvedMachines))
 //@   loop 1 invariant sp: sepArr(shelvedRequests.arr, shelvedMachines.arr) && sepArr(shelvedRequests.arr, (*schedQ).arr) && sepArr(shelvedRequests.arr, (*machQ).arr) && sepArr(shelvedMachines.arr, (*schedQ).arr) && sepArr(shelvedMachines.arr, (*machQ).arr) && sepArr((*schedQ).arr, (*machQ).arr)
 //@   loop 1 invariant qa: ((*schedQ).arr == old((*schedQ).arr) && (*schedQ).off == old((*schedQ).off) && cap(*schedQ) == old(cap(*schedQ)) || fresh((*schedQ).arr)) && ((*machQ).arr == old((*machQ).arr) && (*machQ).off == old((*machQ).off) && cap(*machQ) == old(cap(*machQ)) || fresh((*machQ).arr))
 //@   loop 2 invariant len(*schedQ) + len(shelvedRequests) - i == old(len(*schedQ)) && len(*machQ) + len(shelvedMachines) - i == old(len(*machQ))
 //@   loop 2 invariant qnn: forall(j, 0, len(*schedQ), (*schedQ)[j] != nil) && forall(j, 0, len(*machQ), (*machQ)[j] != nil)
-//@   loop 2 invariant snn: forall(j, 0, len(shelvedRequests), shelvedRequests[j] != nil && shelvedMachines[j] != nil)
+//@   loop 2 invariant snn: forall(j, 0, len(shelvedRequests), shelvedRequests[j] != nil) && forall(j, 0, len(shelvedMachines), shelvedMachines[j] != nil)
 //@   loop 2 invariant sp1: sepArr(shelvedRequests.arr, (*schedQ).arr)
 //@   loop 2 invariant sp2: sepArr(shelvedRequests.arr, (*machQ).arr)
 //@   loop 2 invariant sp3: sepArr(shelvedMachines.arr, (*schedQ).arr)
@@ -95,7 +95,7 @@ package exec
 //@   modifies t.state, t.waitc
 
 //@ func exec.(*Task).Error
-//@   requires t != nil
+//@   requires t != nil && err != nil
 //@   ensures  t.state == TaskErr && t.err == err
 //@   modifies t.state, t.err, t.waitc
 
